@@ -767,7 +767,7 @@ def _oracle(case, obs):
             elif op[1] == 'nbytes' and a != t:
                 bad('hook|nbytes', 'op %d: nbytes gave %s, the twin %s' % (i, a, t))
             elif isinstance(op[1], list) and a != t:
-                bad('contains|alias-not-member', 'op %d: %r in obj gave %s, but %r in obj gives %s and item access through both names is the same' % (
+                bad('contains|alias-differs-from-variable', 'op %d: %r in obj gave %s, but %r in obj gives %s and item access through both names is the same' % (
                     i, op[1][1], a, chain_end(al, op[1][1]), t))
     # ---- no additional storage
     if obs.get('dict_extra_arrays') or obs.get('dict_missing') or len(obs.get('dict_extra', [])) > 4:
